@@ -3,8 +3,9 @@
 Proof units: _endpoint_from_socksport_line (first word decides; option words ignored),
 TorConfig.socks_endpoint (first-word matching over the configured entries; port 0 = no listener),
 TorClientEndpoint.connect (fallback ports in order, move on only after ConnectError, last error
-reported; every await may fail).  The SETCONF re-listing of _create_socks_endpoint is checked by
-the bounded twin."""
+reported; every await may fail), endpoints._create_socks_endpoint over GETCONF answers with 0..2 entries
+(an existing usable listener is used without SETCONF; otherwise one SETCONF re-lists every entry verbatim).
+TorConfig.create_socks_endpoint and the DEFAULT / __SocksPort branch are checked by the bounded twin."""
 import z3
 
 from pyvc.exec import Raise, Unsupported
@@ -19,19 +20,23 @@ TRUSTED = [
     'A3 inlineCallbacks / Deferred semantics; TorSocksEndpoint.connect is used through its contract (returns a protocol or fails)',
     'A7 str.split() tokens uninterpreted (first token characterised exactly; a string without whitespace is its own single token); int() model',
     'twisted TCP4ClientEndpoint / UNIXClientEndpoint are plain records of their constructor arguments',
-    '_create_socks_endpoint (GETCONF answer -> single SETCONF re-listing every entry verbatim) is NOT under contract: bounded twin only',
+    'endpoints._create_socks_endpoint is under contract for explicit GETCONF answers of 0..2 entries (Python sets of strings modelled with a concrete spine, '
+    'iteration order = insertion order; the obligations are order-independent); its DEFAULT / __SocksPort branch and TorConfig.create_socks_endpoint: bounded twin only',
     'pyvc semantics; z3/cvc5',
 ]
 LEVEL = 'proof'
 MANIFEST = {
     'category': 'proof',
-    'technique': 'contract-based deductive verification of the SOCKSPort line interpreter, of first-word matching in TorConfig.socks_endpoint and of the fallback loop of TorClientEndpoint.connect with every await allowed to fail (pyvc VCs, z3/cvc5); bounded CPython twin for the SETCONF re-listing',
+    'technique': 'contract-based deductive verification of the SOCKSPort line interpreter, of endpoints._create_socks_endpoint (existing listener used / single verbatim re-listing SETCONF), of first-word matching in TorConfig.socks_endpoint and of the fallback loop of TorClientEndpoint.connect with every await allowed to fail (pyvc VCs, z3/cvc5); bounded CPython twin for the SETCONF re-listing',
     'text': 'Proved for every line text: _endpoint_from_socksport_line builds a unix endpoint for the first word minus "unix:" or a TCP endpoint for the first '
             'word (host:port or bare port on 127.0.0.1), ignoring option words; TorConfig.socks_endpoint returns the entry whose first word equals the request '
             '(or the first usable entry), never one with port 0, else raises, and leaves unsaved untouched; TorClientEndpoint.connect without a SOCKS endpoint '
-            'tries 9050 then 9150, moves on only after a ConnectError, re-raises the last one, lets any other error through at once, returns the first success.',
-    'level_note': 'Bounded (B, never counted as proved): the clause about the single SETCONF re-listing every existing SOCKSPort entry verbatim '
-                  '(_create_socks_endpoint / TorConfig.create_socks_endpoint) - twin over SOCKSPort configurations x requests x entry points. '
+            'tries 9050 then 9150, moves on only after a ConnectError, re-raises the last one, lets any other error through at once, returns the first success. '
+            '_create_socks_endpoint (0..2 configured entries, any texts, with or without a requested port): if an entry whose first word is the requested port '
+            '(or any entry, when none is requested) is usable, its endpoint is returned and no SETCONF is sent; otherwise exactly one SETCONF is sent and it lists every '
+            'existing entry verbatim in order followed by the new one.',
+    'level_note': 'Bounded (B, never counted as proved): TorConfig.create_socks_endpoint, the DEFAULT / __SocksPort branch, more than two configured entries '
+                  '- twin over SOCKSPort configurations x requests x entry points. '
                   'Known finding: an existing "auto" SOCKSPort is not re-listed by TorConfig.create_socks_endpoint.',
 }
 
@@ -269,8 +274,205 @@ def unit_socks_endpoint(req):
     return run
 
 
+class VSetLit(VTuple):
+    """a Python set with a concrete spine (elements pairwise different on the path); iteration order = insertion order
+    (the obligations below do not depend on the order)"""
+    pass
+
+
+class CreateModels18(CommonModels):
+    """externals of endpoints._create_socks_endpoint: the control protocol (GETCONF / SETCONF through their contracts, C13 / C12),
+    available_tcp_port, _endpoint_from_socksport_line (contract proved by the units above), Python sets of strings"""
+    def callable_(self, ex, path, obj, args, kw):
+        import twisted.python.failure as tf
+        if obj is set and len(args) == 1:
+            items = ex.iter_concrete(path, args[0])
+            outs = [(path, [])]
+            for x in items:
+                nxt = []
+                for p, kept in outs:
+                    rest = p
+                    dup = False
+                    for y in kept:
+                        pt, rest = ex.branch(rest, ex.eq_term(rest, x, y))
+                        if pt is not None:
+                            nxt.append((pt, kept))
+                        if rest is None:
+                            dup = True
+                            break
+                    if rest is not None and not dup:
+                        nxt.append((rest, kept + [x]))
+                outs = nxt
+            return [(p, VSetLit(kept)) for p, kept in outs]
+        if obj is tf.Failure and not args:
+            return [(path, VOpaque('failure', ex.fresh_int(path, 'f')))]
+        return CommonModels.callable_(self, ex, path, obj, args, kw)
+
+    def binop(self, ex, path, op, a, b):
+        import ast
+        if isinstance(a, VSetLit) and isinstance(b, VSetLit) and isinstance(op, ast.Sub):
+            outs = [(path, [])]
+            for x in a.items:
+                nxt = []
+                for p, kept in outs:
+                    rest = p
+                    removed = False
+                    for y in b.items:
+                        pt, rest = ex.branch(rest, ex.eq_term(rest, x, y))
+                        if pt is not None:
+                            nxt.append((pt, kept))
+                        if rest is None:
+                            removed = True
+                            break
+                    if rest is not None and not removed:
+                        nxt.append((rest, kept + [x]))
+                outs = nxt
+            return [(p, VSetLit(kept)) for p, kept in outs]
+        return None
+
+    def contract_for(self, ex, path, f, args, kw):
+        if f.qualname == '_endpoint_from_socksport_line':
+            # contract (units C18/_endpoint_from_socksport_line): the endpoint of that line, or an exception for a malformed one
+            line = args[1]
+            bad = z3.Function('line_is_malformed', z3.StringSort(), z3.BoolSort())(line.t)
+            out = []
+            pt, pf = ex.branch(path, bad)
+            if pf is not None:
+                ep = VOpaque('endpoint', ex.fresh_int(pf, 'ep'))
+                self.glog_add(pf, 'endpoints', (line, ep))
+                out.append((pf, ep))
+            if pt is not None:
+                out.extend(ex.raise_(pt, ValueError, 'malformed SOCKSPort line'))
+            return out
+        if f.qualname == 'available_tcp_port':
+            return [(path, VOpaque('d_port', 1))]
+        return CommonModels.contract_for(self, ex, path, f, args, kw)
+
+    def opaque_attr(self, ex, path, obj, name):
+        from pyvc.sym import VBoundExt
+        return [(path, VBoundExt(obj, name))]
+
+    def method(self, ex, path, recv, name, args, kw):
+        if isinstance(recv, VOpaque) and recv.kind == 'proto':
+            if name == 'get_conf':
+                return [(path, VOpaque('d_getconf', 1))]
+            if name == 'get_conf_single':
+                return [(path, VOpaque('d_single', 1))]
+            if name == 'set_conf':
+                self.glog_add(path, 'setconf', tuple(args))
+                return [(path, VOpaque('d_setconf', 1))]
+        return CommonModels.method(self, ex, path, recv, name, args, kw)
+
+    def await_(self, ex, path, fr, v, node):
+        self.assumptions.add('A3 inlineCallbacks: a yield resumes with the Deferred result or throws its failure into the generator')
+        n = len(self.glog(path, 'awaited'))
+        kind = v.kind if isinstance(v, VOpaque) else '?'
+        pr = path.fork()
+        b = z3.Bool('await%d_fails' % n)
+        pr.assume(b)
+        path.assume(z3.Not(b))
+        self.glog_add(path, 'awaited', (kind, 'ok'))
+        self.glog_add(pr, 'awaited', (kind, 'fail'))
+        exc = ex.new_inst(pr, RuntimeError, args=VTuple([VStr('failure of ' + kind)]))
+        if kind == 'd_getconf':
+            res = path.heap[('g', 'getconf_answer')]
+        elif kind == 'd_single':
+            res = VStr(z3.String('default_socksport'))
+        elif kind == 'd_port':
+            res = VInt(z3.Int('free_port'))
+        else:
+            res = VOpaque('result', ex.fresh_int(path, 'res'))
+        return [(path, res), (pr, Raise(exc))]
+
+
+def unit_create(nlines, requested):
+    """endpoints._create_socks_endpoint over a GETCONF answer with nlines SOCKSPort entries"""
+    def run(ctx):
+        ctx.fn('txtorcon.endpoints', '_create_socks_endpoint')
+        ex = ctx.ex
+        path = ctx.new_path()
+        L = [z3.String('line%d' % i) for i in range(nlines)]
+        T = [F_tok(l, 0) for l in L]
+        for i, l in enumerate(L):
+            ctx.input('line%d' % i, VStr(l))
+            path.assume(F_ntok(l) >= 1)
+            path.assume(z3.Length(T[i]) > 0)
+            # (an explicit list, not the DEFAULT marker: that branch asks __SocksPort and is exercised by the twin)
+            path.assume(l != mk_str('DEFAULT'))
+        lines = ex.new_list(path, [VStr(l) for l in L])
+        path.heap[('g', 'getconf_answer')] = ex.new_dict(path, [(VStr('SOCKSPort'), lines)]) if nlines else ex.new_dict(path, [])
+        req = z3.String('requested')
+        if requested:
+            ctx.input('requested', VStr(req))
+            path.assume(z3.Length(req) > 0)
+        bad = z3.Function('line_is_malformed', z3.StringSort(), z3.BoolSort())
+        usable = [zand(T[i] != mk_str('0'), z3.Not(bad(T[i])), (T[i] == req) if requested else B(True)) for i in range(nlines)]
+        any_usable = zor(*usable) if usable else B(False)
+        ctx.cover('pre_satisfiable', path)
+        if nlines:
+            ctx.cover('pre_usable', path, any_usable)
+            ctx.cover('pre_none_usable', path, z3.Not(any_usable))
+        mi, node = extract.find('txtorcon.endpoints', '_create_socks_endpoint')
+        f = VFunc(node, 'txtorcon.endpoints', '_create_socks_endpoint')
+        args = [VOpaque('reactor', 1), VOpaque('proto', 2)] + ([VStr(req)] if requested else [])
+        n_ok = 0
+        for p, r in ex.call(path, f, args, {}):
+            sc = ctx.models.glog(p, 'setconf')
+            eps = ctx.models.glog(p, 'endpoints')
+            aw = ctx.models.glog(p, 'awaited')
+            ctx.oblige('post.at_most_one_setconf', p, B(len(sc) <= 1), clause='by a single SETCONF')
+            new = req if requested else None
+            if sc:
+                a = sc[0]
+                okshape = len(a) == 2 * (nlines + 1) and all(concrete_of(a[2 * i]) == (True, 'SOCKSPort') for i in range(nlines + 1)) \
+                    and all(isinstance(a[2 * i + 1], VStr) for i in range(nlines + 1))
+                verbatim = zand(*[a[2 * i + 1].t == L[i] for i in range(nlines)]) if okshape else B(False)
+                if okshape and not requested:
+                    newt = a[2 * nlines + 1].t
+                    fp = z3.Int('free_port')
+                    isnew = newt == z3.If(fp >= 0, z3.IntToStr(fp), z3.Concat(mk_str('-'), z3.IntToStr(-fp)))
+                elif okshape:
+                    isnew = a[2 * nlines + 1].t == req
+                else:
+                    isnew = B(False)
+                ctx.oblige('post.setconf_relists_every_existing_entry_verbatim_in_order_plus_the_new_one', p, zand(B(okshape), verbatim, isnew),
+                           clause='otherwise a new listener is added by a single SETCONF that re-lists every existing entry verbatim')
+                ctx.oblige('post.configuration_changed_only_when_nothing_usable_is_configured', p, z3.Not(any_usable),
+                           clause='one that the connected Tor already has configured is used without changing Tor\'s configuration')
+            if isinstance(r, Raise):
+                failed = any(x[1] == 'fail' for x in aw)
+                ctx.oblige('post.fails_only_when_a_command_failed_or_the_new_line_is_malformed', p,
+                           B(failed) if not sc else zor(B(failed), bad(req) if requested else B(True)))
+                continue
+            n_ok += 1
+            used = [e for e in eps if e[1] is r]
+            ctx.oblige('post.result_is_an_endpoint_of_a_configured_line', p, B(len(used) == 1))
+            if len(used) == 1:
+                ut = used[0][0].t
+                if sc:
+                    pass
+                else:
+                    ctx.oblige('post.existing_listener_used_is_the_requested_one_and_usable', p,
+                               zand(zor(*[zand(ut == T[i], usable[i]) for i in range(nlines)]) if nlines else B(False)),
+                               clause='a requested SOCKS port that the connected Tor already has configured is used')
+                    ctx.oblige('post.no_setconf_when_usable', p, B(len(sc) == 0))
+            if not sc:
+                ctx.oblige('post.unchanged_configuration_only_with_a_usable_entry', p, any_usable)
+        if not n_ok:
+            ctx.oblige('some_normal_exit', path, B(False))
+    return run
+
+
+def make_models_for(unit_name):
+    return CreateModels18() if '_create_socks_endpoint' in unit_name else Models18()
+
+
 def units():
-    return [('C18/_endpoint_from_socksport_line/one_word', unit_line('one_word')),
+    extra = []
+    for n in (0, 1, 2):
+        for req in (False, True):
+            extra.append(('C18/_create_socks_endpoint@%d/%s' % (n, 'requested' if req else 'any'), unit_create(n, req)))
+    return extra + [('C18/_endpoint_from_socksport_line/one_word', unit_line('one_word')),
             ('C18/_endpoint_from_socksport_line/with_options', unit_line('with_options')), ('C18/TorClientEndpoint.connect', unit_connect()),
             ('C18/TorConfig.socks_endpoint/any', unit_socks_endpoint(None)),
             ('C18/TorConfig.socks_endpoint/present', unit_socks_endpoint('present')),
